@@ -623,15 +623,26 @@ impl ElementRaw {
             }
 
             // copy all content: sub elements and text items
+            let mut prev_indices: Option<Vec<usize>> = None;
             for content_item in &self.content {
                 match content_item {
                     ElementContent::Element(sub_elem) => {
                         let sub_elem_name = sub_elem.element_name();
                         // since find_sub_element already considers the version, finding the element also means it's valid in the target_version
-                        if let Some((sub_elemtype, _)) = elemtype.find_sub_element(sub_elem_name, target_version as u32) {
+                        if let Some((sub_elemtype, indices)) =
+                            elemtype.find_sub_element(sub_elem_name, target_version as u32)
+                        {
+                            // in the type of the target version the sub element can be an exclusive alternative of the previous one
+                            if prev_indices.as_ref().is_some_and(|prev| {
+                                *prev != indices
+                                    && elemtype.find_common_group(prev, &indices).content_mode() == ContentMode::Choice
+                            }) {
+                                continue;
+                            }
                             if let Ok(copied_sub_elem) = sub_elem.0.read().deep_copy(sub_elemtype, target_version) {
                                 copied_sub_elem.0.write().parent = ElementOrModel::Element(copy_wrapped.downgrade());
                                 copy.content.push(ElementContent::Element(copied_sub_elem));
+                                prev_indices = Some(indices);
                             }
                         }
                     }
